@@ -236,11 +236,11 @@ func (a *alctx) strExpr(x ast.Expr) (term string, pre string) {
 	var op string
 	switch {
 	case sl.Low != nil && sl.High == nil:
-		op = "goFrom s " + a.intExpr(sl.Low)
+		op = "clFrom s " + a.intExpr(sl.Low)
 	case sl.Low == nil && sl.High != nil:
-		op = "goTo s " + a.intExpr(sl.High)
+		op = "clTo s " + a.intExpr(sl.High)
 	case sl.Low != nil && sl.High != nil:
-		op = fmt.Sprintf("goSub s %s %s", a.intExpr(sl.Low), a.intExpr(sl.High))
+		op = fmt.Sprintf("clSub s %s %s", a.intExpr(sl.Low), a.intExpr(sl.High))
 	default:
 		return "s", ""
 	}
@@ -437,7 +437,7 @@ func asLocatorDef(src *source) string {
 	out += a.clone().stmts(def) + closing
 	b := strings.Builder{}
 	b.WriteString("/-- locator.go `AsLocator`: the description of the locator it builds (`selOk E`: `Selector(E)` returns no error; calls itself: fuel) -/\n")
-	fmt.Fprintf(&b, "def asLocator (selOk : List UInt8 → Bool) : Nat → List UInt8 → Gts.LocatorDesc\n  | 0, _ => Gts.LocatorDesc.panic\n  | fuel + 1, s =>\n    let i : Int := goIndexByte s %d;\n%s\n\n", sep, kindent(kindent(out)))
+	fmt.Fprintf(&b, "def asLocator (selOk : List UInt8 → Bool) : Nat → List UInt8 → Gts.LocatorDesc\n  | 0, _ => Gts.LocatorDesc.panic\n  | fuel + 1, s =>\n    let i : Int := clIndexByte s %d;\n%s\n\n", sep, kindent(kindent(out)))
 	return b.String()
 }
 
@@ -460,7 +460,7 @@ func genLocator(repo string) (text string, err error) {
 		"  The locator constructors applied to a sequence (statement by statement; `none` is a Go run-time panic\n" +
 		"  of an index / slice expression), `tryLocation`, and `AsLocator` as the description of the locator built.\n" +
 		"  (how the Go is read: the header comments of go2lean/glocator.go and gcli.go)\n-/\n" +
-		"import Gts.Model.Locator\nimport Gts.Gen.GoList\nnamespace Gts.Gen\nset_option linter.unusedVariables false\n\n")
+		"import Gts.Model.Locator\nimport Gts.Gen.CliList\nnamespace Gts.Gen\nset_option linter.unusedVariables false\n\n")
 	// the type of a locator, as the constructors assume it
 	for _, d := range src.file.Decls {
 		if gd, ok := d.(*ast.GenDecl); ok && gd.Tok == token.TYPE {
